@@ -867,6 +867,32 @@ LOG_ARG_SAFE_LAST = {
 }
 
 
+def _inert_fn(fb, b, depth=0, seen=None):
+    """a workspace function that cannot panic and has no effect as far as its own text shows: no checked operation, and every
+    call is to an inert std accessor or to another such function"""
+    seen = seen or set()
+    if depth > 3 or b.path in seen:
+        return False
+    seen = seen | {b.path}
+    for bk in b.blocks:
+        if bk['cleanup']:
+            continue
+        t = bk['term']
+        if t['k'] == 'assert':
+            return False
+        if t['k'] == 'call':
+            fn = t['func'].get('fn')
+            if not fn:
+                return False
+            nm = mir.callee_name(fn)
+            if mir.in_tracing(bk['tspan']) or nm.startswith(('tracing', 'log::', 'std::fmt', 'core::fmt')) or nm.split('::')[-1] in LOG_ARG_SAFE_LAST:
+                continue
+            nb = fb.body(nm)
+            if nb is None or not _inert_fn(fb, nb, depth + 1, seen):
+                return False
+    return True
+
+
 def log_argument_hazards(fb, body):
     """[(where, description)] for operations evaluated as *arguments of a tracing / log macro* in `body` that can panic or
     have an effect: such an operation runs only when the event's level is enabled (always, for error!/warn!/info! in the
@@ -907,8 +933,8 @@ def log_argument_hazards(fb, body):
                 if nm.startswith(('tracing', 'log::', 'std::fmt', 'core::fmt')) or last in LOG_ARG_SAFE_LAST:
                     continue
                 nb = fb.body(nm) if fn else None
-                if nb is not None and not list(user_calls(nb)) and not any(bk['term']['k'] == 'assert' for bk in nb.blocks if not bk['cleanup']):
-                    continue        # a trivial workspace accessor
+                if nb is not None and _inert_fn(fb, nb):
+                    continue        # a workspace accessor that itself only calls inert things and checks nothing
                 out.append((body.where(x), 'the call %s made inside a log macro argument (it can panic or has an effect, and '
                             'runs only when that log level is enabled)' % nm))
     return out
